@@ -27,6 +27,7 @@ BaseBundle(k) ==
                                      Ex(U1, <<H(S_Variants, VAR1), H(S_VariantKey, <<102,114>>)>>, 24) >>)
     [] k = 3 -> B("b2", FALSE, FALSE, << Ex(U1, <<>>, 0) >>)
     [] k = 4 -> B("b2", TRUE, FALSE, <<>>)
+    [] k = 7 -> B("b2", FALSE, FALSE, << Ex(U1, <<CT>>, 300) >>)          \* responses section longer than everything before it
     \* a response whose encoded length is exactly 256 (19 01 00) and a second one starting at offset 256+1: cutting the
     \* last byte(s) of the index leaves an argument whose missing low bytes would read as zero
     [] k = 5 -> LET n == CHOOSE m \in 150..250 : Len(RespItem(Ex(U1, <<CT>>, m))) = 256 IN B("b2", FALSE, FALSE, << Ex(U1, <<CT>>, n) >>)
@@ -43,6 +44,9 @@ Table(b) == [i \in 1..Len(Sections(b)) |-> [name |-> Sections(b)[i].name, len |-
 Bodies(b) == [i \in 1..Len(Sections(b)) |-> Sections(b)[i].body]
 Build(b, table, cnt, nsec, bodies) == Assemble(b.ver, b.primary, SectionLengthsU(table, cnt), nsec, Concat(bodies))
 Plain(b) == Build(b, Table(b), 2 * Len(Table(b)), Len(Table(b)), Bodies(b))
+RespLen(b) == Len(ResponsesSection(b.exs))
+RespStart(b) == Len(Plain(b)) - 9 - RespLen(b)
+WrapKs(b) == { k \in { RespStart(b) + 1, (RespStart(b) + RespLen(b)) \div 2, RespLen(b) } : k > RespStart(b) /\ k <= RespLen(b) }
 Unknown(k) == [name |-> <<122,122,122>>, body |-> Rep(k, 0)]
 InsAt(s, p, e) == SubSeq(s, 1, p - 1) \o <<e>> \o SubSeq(s, p, Len(s))
 RemAt(s, p) == SubSeq(s, 1, p - 1) \o SubSeq(s, p + 1, Len(s))
@@ -56,6 +60,11 @@ Muts(b) ==
   \cup UNION { { [kind |-> "idxoff", i |-> e, j |-> 0, v |-> v] : v \in Around(locs[e].off, fsize) } : e \in 1..Len(b.exs) }
   \cup UNION { { [kind |-> "idxlen", i |-> e, j |-> 0, v |-> v] : v \in Around(locs[e].len, fsize) } : e \in 1..Len(b.exs) }
   \cup { [kind |-> "idxwrap", i |-> e, j |-> 0, v |-> <<255,255,255,255,255,255,255,255>>] : e \in 1..Len(b.exs) }
+  \* offset = 2^64 - k with (bytes before the responses section) < k <= (its length) and a length up to that length:
+  \* offset + length wraps to a small number although the start lies far outside
+  \cup UNION { UNION { { [kind |-> "idxwrap2", i |-> e, j |-> k, v |-> U64(ln)] : ln \in {k, RespLen(b)} } : k \in WrapKs(b) } : e \in 1..Len(b.exs) }
+  \* two index entries naming the SAME offset with different lengths (d = length delta of the aliasing entry)
+  \cup { [kind |-> "idxalias", i |-> e, j |-> e2, v |-> U64(d)] : e \in 1..Len(b.exs), e2 \in 1..Len(b.exs), d \in {0, 1, 2} }
   \cup { [kind |-> "swap", i |-> i, j |-> j, v |-> U64Zero] : i \in 1..n, j \in 1..n }
   \cup { [kind |-> "dupname", i |-> i, j |-> j, v |-> U64Zero] : i \in 1..n, j \in 1..n }
   \cup { [kind |-> "unknown", i |-> p, j |-> k, v |-> U64Zero] : p \in 1..n, k \in {0, 1, 7} }
@@ -82,6 +91,15 @@ Apply(b, m) ==
                    ELSE IF m.kind = "idxlen" THEN [e |-> m.i, off |-> U64(l.off), len |-> m.v]
                    ELSE [e |-> m.i, off |-> m.v, len |-> U64(2)]        \* offset + length wraps around 2^64
              ix == IndexSectionO(b, ov)
+         IN Build(b, [t EXCEPT ![1].len = U64(Len(ix))], 2 * n, n, [bd EXCEPT ![1] = ix])
+    [] m.kind = "idxwrap2" ->
+         LET ix == IndexSectionO(b, [e |-> m.i, off |-> U64Sub(<<255,255,255,255,255,255,255,255>>, U64(m.j - 1)), len |-> m.v])
+         IN Build(b, [t EXCEPT ![1].len = U64(Len(ix))], 2 * n, n, [bd EXCEPT ![1] = ix])
+    [] m.kind = "idxalias" ->
+         LET l2 == Locs(b.exs)[m.j]
+             d == SmallVal(m.v)
+             ln == IF d = 0 THEN l2.len ELSE IF d = 1 THEN l2.len - 1 ELSE l2.len + 1
+             ix == IndexSectionO(b, [e |-> m.i, off |-> U64(l2.off), len |-> U64(IF ln < 0 THEN 0 ELSE ln)])
          IN Build(b, [t EXCEPT ![1].len = U64(Len(ix))], 2 * n, n, [bd EXCEPT ![1] = ix])
     [] m.kind = "swap" -> Build(b, Swap(t, m.i, m.j), 2 * n, n, Swap(bd, m.i, m.j))
     [] m.kind = "dupname" -> Build(b, [t EXCEPT ![m.i].name = t[m.j].name], 2 * n, n, bd)
@@ -118,7 +136,7 @@ UnmutatedReads == mut.kind = "none" => X.res = "ok" /\ X.exs = ExpectedRead(Base
 UnknownSkipped == mut.kind = "unknown" => X.res = "ok" /\ X.exs = ExpectedRead(BaseBundle(base))
 \* declared lengths pointing outside the file, wrapping offsets, responses not last, duplicates: refused
 OutOfBoundsRefused ==
-  /\ mut.kind \in {"idxwrap", "dupname", "unknownlast"} => (X.res = "err" \/ mut.i = mut.j)
+  /\ mut.kind \in {"idxwrap", "idxwrap2", "dupname", "unknownlast"} => (X.res = "err" \/ (mut.kind = "dupname" /\ mut.i = mut.j))
   /\ (mut.kind = "seclen" /\ ~IsSmall(mut.v)) => X.res = "err"
   /\ (mut.kind \in {"idxoff", "idxlen"} /\ ~IsSmall(mut.v)) => X.res = "err"
 \* whatever is extracted comes from the file: never more exchanges than index locations, never content of another base
